@@ -50,7 +50,9 @@
  *                  Signature control: spec.signer (EVP key that signs), spec.sigalg (declared in TBS),
  *                  spec.outer_sigalg (declared outside, 0 = same), spec.sign_alg (algorithm really used,
  *                  0 = sigalg), spec.sigmode = CG_SM_GOOD | CG_SM_FLIP (flip bit spec.flip_bit of the
- *                  signature) | CG_SM_OVERRIDE (use spec.sig_override bytes) | CG_SM_EMPTY.
+ *                  signature VALUE - for DER-wrapped ECDSA signatures only inside r / s) | CG_SM_OVERRIDE (use
+ *                  spec.sig_override bytes) | CG_SM_EMPTY | CG_SM_ENVELOPE (ECDSA: damage only the outer SEQUENCE
+ *                  length, (r,s) untouched).
  *                  Extensions: bc/bc_ca/bc_pathlen/bc_crit, ku/ku_bits/ku_crit, eku/eku_mask/eku_crit,
  *                  san[]/nsan/san_crit (kind = GeneralName tag number: CG_GN_EMAIL 1, CG_GN_DNS 2,
  *                  CG_GN_URI 6, CG_GN_IP 7; value = arbitrary bytes of arbitrary length),
@@ -315,7 +317,7 @@ enum { CG_GN_OTHER = 0, CG_GN_EMAIL = 1, CG_GN_DNS = 2, CG_GN_X400 = 3, CG_GN_DI
 typedef struct { int kind, len; unsigned char v[128]; } cg_gn;
 enum { CG_KU_DIGSIG = 0x80, CG_KU_NONREP = 0x40, CG_KU_KEYENC = 0x20, CG_KU_DATAENC = 0x10, CG_KU_KEYAGREE = 0x08, CG_KU_CERTSIGN = 0x04, CG_KU_CRLSIGN = 0x02, CG_KU_ENCONLY = 0x01 };
 enum { CG_EKU_SERVER = 1, CG_EKU_CLIENT = 2, CG_EKU_CODE = 4, CG_EKU_EMAIL = 8, CG_EKU_ANY = 16 };
-enum { CG_SM_GOOD = 0, CG_SM_FLIP, CG_SM_OVERRIDE, CG_SM_EMPTY };
+enum { CG_SM_GOOD = 0, CG_SM_FLIP, CG_SM_OVERRIDE, CG_SM_EMPTY, CG_SM_ENVELOPE };
 #define CG_MAXSAN 8
 typedef struct cg_spec {
     int version;                     /* 2 = v3, 1 = v2, 0 = v1 (version field omitted, no extensions emitted) */
@@ -406,6 +408,22 @@ static void cg_build_tbs(cg_buf *out, const cg_spec *s)
     if (s->version == 2) cg_extensions(&t, s);
     cg_wrap(out, 0x30, &t);
 }
+/* Flip one bit of the signature VALUE.  ECDSA signatures are DER SEQUENCE { INTEGER r, INTEGER s }: only bits inside the magnitudes of r and s
+ * are candidates (a flipped tag/length octet may leave (r,s) - the actual signature - unchanged for a lenient DER reader). */
+static void cg_flip_value_bit(unsigned char *sig, size_t siglen, int ecdsa_der, int which)
+{
+    if (ecdsa_der && siglen > 8 && sig[0] == 0x30 && sig[1] < 0x80 && sig[2] == 0x02) {
+        size_t r0 = 4, rl = sig[3], s0 = 4 + rl + 2, sl = r0 + rl + 1 < siglen ? sig[r0 + rl + 1] : 0;
+        if (rl && sig[r0] == 0) { r0++; rl--; }
+        if (sl && s0 < siglen && sig[s0] == 0) { s0++; sl--; }
+        if (rl && sl && s0 + sl <= siglen) {
+            size_t bit = (size_t) which % ((rl + sl) * 8), byte = bit / 8;
+            sig[byte < rl ? r0 + byte : s0 + (byte - rl)] ^= (unsigned char) (1 << (bit % 8));
+            return;
+        }
+    }
+    size_t bit = (size_t) which % (siglen * 8); sig[bit / 8] ^= (unsigned char) (1 << (bit % 8));
+}
 /* Build and sign.  Returns 0, or -1 when the requested signing algorithm cannot be computed with the signer's key. */
 static int cg_make_cert(const cg_spec *s0, cg_cert *out)
 {
@@ -420,7 +438,8 @@ static int cg_make_cert(const cg_spec *s0, cg_cert *out)
     else if (s.sigmode == CG_SM_EMPTY) { sig = (unsigned char *) malloc(1); siglen = 0; }
     else {
         if (cg_sign(s.signer, s.sign_alg ? s.sign_alg : s.sigalg, tbs.p, tbs.n, &sig, &siglen) < 0) { cg_buf_free(&tbs); return -1; }
-        if (s.sigmode == CG_SM_FLIP && siglen) { size_t bit = (size_t) s.flip_bit % (siglen * 8); sig[bit / 8] ^= (unsigned char) (1 << (bit % 8)); }
+        if (s.sigmode == CG_SM_FLIP && siglen) cg_flip_value_bit(sig, siglen, cg_sig_family(s.sign_alg ? s.sign_alg : s.sigalg) == 1, s.flip_bit);
+        if (s.sigmode == CG_SM_ENVELOPE && siglen > 2 && sig[0] == 0x30 && sig[1] < 0x80) sig[1] ^= 0x04;
     }
     cg_put(&body, tbs.p, tbs.n);
     cg_sig_algid(&body, s.outer_sigalg ? s.outer_sigalg : s.sigalg);
@@ -508,7 +527,7 @@ static int cg_make_crl(const cg_crl_spec *c, unsigned char **der, int *derlen)
     cg_wrap(&tbs, 0x30, &t);
     unsigned char *sig = NULL; size_t siglen = 0;
     if (cg_sign(c->signer, alg, tbs.p, tbs.n, &sig, &siglen) < 0) { cg_buf_free(&tbs); return -1; }
-    if (c->sigmode == CG_SM_FLIP) { size_t bit = (size_t) c->flip_bit % (siglen * 8); sig[bit / 8] ^= (unsigned char) (1 << (bit % 8)); }
+    if (c->sigmode == CG_SM_FLIP) cg_flip_value_bit(sig, siglen, cg_sig_family(alg) == 1, c->flip_bit);
     cg_put(&body, tbs.p, tbs.n); cg_sig_algid(&body, c->outer_sigalg ? c->outer_sigalg : alg); cg_bitstring(&body, sig, siglen, 0);
     cg_tlv(&all, 0x30, body.p, body.n);
     *der = (unsigned char *) malloc(all.n); memcpy(*der, all.p, all.n); *derlen = (int) all.n;
